@@ -2,7 +2,7 @@
 (***************************************************************************)
 (* Design check (A) for C10: every formula of a TLC-generated layer of      *)
 (* Gen_Bool is an initial state; one step applies the rule model of the     *)
-(* NNFizer or of the AIGer; the invariant is the abstract RewriteContract   *)
+(* NNFizer, of the AIGer or of the PrenexNormalizer; the invariant is the abstract RewriteContract   *)
 (* (advertised shape, same type, no new free symbol, same value under every *)
 (* enumerated interpretation and quantification domain).                    *)
 (***************************************************************************)
@@ -13,7 +13,7 @@ CONSTANTS WhichLayer
 G == INSTANCE Gen_Bool WITH Layer <- WhichLayer, NShards <- 1, Shard <- 0, done <- FALSE
 
 VARIABLES t, proc, out, pc
-Init == t \in G!Corpus /\ proc \in {"nnf", "aig"} /\ out = t /\ pc = "in"
+Init == t \in G!Corpus /\ proc \in {"nnf", "aig", "prenex"} /\ out = t /\ pc = "in"
 Next == pc = "in" /\ out' = RewrModel(proc, t) /\ pc' = "out" /\ UNCHANGED <<t, proc>>
 Spec == Init /\ [][Next]_<<t, proc, out, pc>>
 
